@@ -1,40 +1,292 @@
-use hickory_proto::rr::Name;
-use hickory_proto::serialize::txt::Parser;
-use std::str::FromStr;
+//! C20 — zone files load to exactly the records they denote; malformed text gives an error,
+//! never a panic or an endless loop.
+//!
+//! Seam: `hickory_proto::serialize::txt::Parser::new(text, path, Some(origin)).parse()`.
+//!
+//! Valid direction (E-ENUM): every record of the alphabet (all 22 parser-supported types x 2..4
+//! value shapes, TXT 15) is printed by the independent RFC 1035 §5 printer `vref::masterfile`
+//! under EVERY legal layout vector (file: LF/CRLF, final newline, `$TTL` first; record: `$ORIGIN`
+//! before it, blank line, owner abs/relative/`@`/inherited, TTL explicit/omitted/own `$TTL`,
+//! class explicit/omitted, field order, separators, comments, parentheses over 1..3 lines,
+//! quoted/unquoted strings, RDATA names abs/relative/`@`); ordered pairs (thorough: triples) of a
+//! sub-alphabet under every vector of a reduced profile. Oracle: the parse succeeds, the loaded
+//! map flattened to (owner, TTL, class, type, RDATA) equals the records handed to the printer
+//! (names case-insensitively, strings byte-exactly), the returned origin is the argument.
+//!
+//! Malformed direction: all strings of length <= 5/6 over 15 characters, every 1-character edit
+//! of ~60 valid seed files (thorough: 2-character edits of the 8 shortest), growth families
+//! n = 2^0..2^16 and `$INCLUDE` recursion in a scratch directory. Oracle: `parse()` returns
+//! (Ok or Err) — no panic, and every case finishes (watchdog).
 
-fn probe(t: &str) {
-    let r = vcore::catch(|| Parser::new(t.to_string(), None, Some(Name::from_str("ex.test.").unwrap())).parse());
-    match r {
-        Err(p) => println!("{t:?}\n   PANIC {} @ {}", p.msg, p.loc),
-        Ok(Err(e)) => println!("{t:?}\n   ERR {e}"),
-        Ok(Ok((o, m))) => {
-            println!("{t:?}\n   OK origin={o}");
-            for (_k, rs) in m {
-                for r in rs.records_without_rrsigs() {
-                    println!("      {} {} {} {} {:?}", r.name, r.ttl, r.dns_class, r.record_type(), r.data);
-                }
-            }
-        }
+mod alphabet;
+mod malformed;
+mod valid;
+
+use std::sync::Mutex;
+
+use serde_json::{json, Value};
+use vcore::{Ctx, PanicInfo};
+use vref::masterfile::{DIMS, GDIMS, NDIMS, NGDIMS};
+
+use valid::{Enum, Profile, Stats, World};
+
+/// Panics are keyed by their site. The lexer's artificial per-token character budget
+/// (`assert!(i < 4095)`) is recognised by its message so that the key survives line shifts.
+pub fn panic_key(p: &PanicInfo) -> String {
+    let loc = vcore::short_loc(&p.loc);
+    if loc.contains("serialize/txt/zone_lex.rs") && p.msg.contains("i < 4095") {
+        "panic:zone_lex:next_token-char-budget".to_string()
+    } else {
+        format!("panic:{loc}")
     }
 }
 
+fn replay(ctx: &Ctx, w: &World, case: &Value) {
+    // a watchdog artefact wraps the description of the running case in a string
+    let case: Value = match case["case"].as_str() {
+        Some(s) => serde_json::from_str(s).unwrap_or(Value::Null),
+        None => case.clone(),
+    };
+    ctx.with_local(|l| match case["kind"].as_str().unwrap_or("") {
+        "valid" => valid::replay(w, &case, l),
+        "text" => {
+            if let Some(t) = case["text"].as_str() {
+                let c = malformed::run_text(w, case["family"].as_str().unwrap_or("text"), t, None, case["with_origin"].as_bool().unwrap_or(true), l);
+                eprintln!("replay text: {c}");
+            } else {
+                malformed::replay_growth(w, &case, l);
+            }
+        }
+        "growth" => malformed::replay_growth(w, &case, l),
+        "short-range" => malformed::replay_short_range(w, &case, l),
+        "include" => {
+            let dir = malformed::scratch_dir();
+            let _ = std::fs::remove_dir_all(&dir);
+            std::fs::create_dir_all(&dir).expect("scratch dir");
+            malformed::includes(ctx, w, &dir);
+            let _ = std::fs::remove_dir_all(&dir);
+        }
+        other => eprintln!("cannot replay case kind {other:?}; re-run the tier instead"),
+    });
+}
+
 fn main() {
-    probe("@ 300 IN NS @\n");
-    probe("@ 300 IN MX 10 @\n");
-    probe("a 300 IN TXT ( \"a b\" )\n");
-    probe("a 300 IN TXT \"a b\" ( \"c\" )\n");
-    probe("a 300 IN SVCB 1 svc alpn=h2\n");
-    probe("a 300 IN HTTPS 1 . alpn=\"h2,h3\"\n");
-    probe("a 300 IN TXT a\\\"b\n");
-    probe("a 300 IN TXT \"a\\\"b\\\\c\\\\1\"\n");
-    probe("a 300 CH A 1.2.3.4\n b A 1.2.3.5\n");
-    probe("$TTL 5\na 300 IN A 1.2.3.4\nb A 1.2.3.5\n");
-    probe("m\\.n 300 IN A 1.2.3.4\n");
-    probe("MiX 300 IN CNAME WwW.Other.\n");
-    probe(&format!("a 300 IN A 1.2.3.4 ;{}\n", "c".repeat(5000)));
-    probe("a 300 IN TXT \"x\ny\"\n");
-    probe("$ORIGIN sub.ex.test.\n@ 1 IN A 1.2.3.4\n");
-    probe("a 1 IN A 1.2.3.4 ; c");
-    probe("a 1 IN CSYNC 66 3 A NS AAAA\n");
-    probe("a 1 IN CAA 128 issuewild \";\"\n");
+    let ctx = Ctx::from_args("C20", "exploration");
+    let thorough = !ctx.quick();
+    let w = World::new();
+
+    if let Some((_key, case)) = ctx.replay_case() {
+        replay(&ctx, &w, &case);
+        ctx.finish(false);
+    }
+
+    ctx.set_rule(
+        "VALID: every record of the alphabet (22 types x 2..4 value shapes, TXT 15; 10 owner/TTL/class envelopes) x EVERY legal \
+         layout vector of the independent printer vref::masterfile (file: eol, final newline, $TTL first; record: $ORIGIN before, \
+         blank line, owner form, TTL form, class form, order, separators, comment, parentheses, string quoting, RDATA name form); \
+         every ordered pair (thorough: triple) of a sub-alphabet x every legal vector of a reduced profile (see coverage.profiles). \
+         Oracle: parse Ok, loaded (owner,TTL,class,type,RDATA) set == records printed, returned origin == argument. \
+         MALFORMED: all strings of length <= 5 (thorough 6) over the 15 characters ' \\t\\n\\r();\"\\\\$@.a0*' (with and without an \
+         origin argument), every 1-character deletion/insertion/substitution of the seed files (thorough: all 2-edits of the 8 \
+         shortest), growth families n=2^0..2^16, $INCLUDE recursion/chains. Oracle: returns Ok or Err, no panic, finishes. \
+         Non-trivial = distinct valid texts with at least one inheritance / relative name / continuation / escape, distinct \
+         non-blank short strings that parse Ok, distinct rejected edits, growth points.",
+    );
+    ctx.assume("vref::masterfile prints RFC 1035 §5.1 / RFC 2308 §4 syntax only; an omitted class before any stated class denotes IN");
+    ctx.assume("expected RDATA values are built with hickory's constructors (not its text parser) from the same typed values the printer receives");
+    ctx.assume("RRsets that RFC 2181 §5.2 forbids (mixed TTL/class, two SOAs, two CNAMEs) are run but their record comparison is not judged");
+    ctx.case_timeout_s.store(30, std::sync::atomic::Ordering::Relaxed);
+
+    // ---------------------------------------------------------------------------------- valid
+    let singles = alphabet::singles();
+    let sub = alphabet::sub_alphabet(6, 6);
+    let total = Mutex::new(Stats::default());
+    let mut profiles = serde_json::Map::new();
+
+    // files of one record: full layout space, one work item per (record, file layout slice)
+    {
+        let prof = Profile::full_single();
+        profiles.insert("single".into(), prof.describe());
+        let stats = Mutex::new(Stats::default());
+        // split the work of one record by the `origin` dimension to balance the load
+        let mut profs = vec![];
+        for o in 0..DIMS[0].1.len() as u8 {
+            for s in 0..DIMS[6].1.len() as u8 {
+                let mut p = prof.clone();
+                p.per[0][0] = vec![o];
+                p.per[0][6] = vec![s];
+                profs.push(p);
+            }
+        }
+        let n = (singles.len() * profs.len()) as u64;
+        ctx.par_run(n, 1, |i, l| {
+            let (ri, pi) = (i as usize / profs.len(), i as usize % profs.len());
+            let en = Enum { w: &w, alpha_name: "singles", alpha: &singles, profile: &profs[pi], stats: &stats };
+            en.run_tuple(&[ri], l);
+        });
+        let st = stats.into_inner().unwrap();
+        ctx.set("valid_single_records", json!(singles.len()));
+        ctx.set("valid_single_files", json!(st.legal));
+        // vacuity: every value of every layout dimension must have been printed and accepted
+        for d in 0..NDIMS {
+            for (v, name) in DIMS[d].1.iter().enumerate() {
+                if st.dimvals[d][v] == 0 {
+                    ctx.machinery_failure(&format!("vacuous: layout choice {}={} never legal in single-record files", DIMS[d].0, name));
+                }
+            }
+        }
+        for d in 0..NGDIMS {
+            for (v, name) in GDIMS[d].1.iter().enumerate() {
+                if st.gvals[d][v] == 0 {
+                    ctx.machinery_failure(&format!("vacuous: file layout choice {}={} never used", GDIMS[d].0, name));
+                }
+            }
+        }
+        total.lock().unwrap().add(&st);
+    }
+
+    // ordered pairs
+    {
+        let prof = Profile::pair(thorough);
+        profiles.insert("pair".into(), prof.describe());
+        let (nenv, nshape) = if thorough { (6, 6) } else { (5, 4) };
+        let pick: Vec<usize> = (0..36).filter(|i| i / 6 < nenv && i % 6 < nshape).collect();
+        let stats = Mutex::new(Stats::default());
+        let n = (pick.len() * pick.len()) as u64;
+        ctx.par_run(n, 1, |i, l| {
+            let (a, b) = (pick[i as usize / pick.len()], pick[i as usize % pick.len()]);
+            let en = Enum { w: &w, alpha_name: "sub", alpha: &sub, profile: &prof, stats: &stats };
+            en.run_tuple(&[a, b], l);
+        });
+        let st = stats.into_inner().unwrap();
+        ctx.set("valid_pair_alphabet", json!(pick.len()));
+        ctx.set("valid_pair_files", json!(st.legal));
+        ctx.set("valid_pair_files_unjudged_rrset_conflict", json!(st.unjudged));
+        for (d, vals) in [(2usize, vec![3usize]), (3, vec![1, 2]), (4, vec![1])] {
+            for v in vals {
+                if st.dimvals[d][v] == 0 {
+                    ctx.machinery_failure(&format!("vacuous: {}={} never legal in two-record files", DIMS[d].0, DIMS[d].1[v]));
+                }
+            }
+        }
+        total.lock().unwrap().add(&st);
+    }
+
+    // ordered triples (thorough)
+    if thorough {
+        let prof = Profile::triple();
+        profiles.insert("triple".into(), prof.describe());
+        // 4 envelopes x 3 shapes
+        let pick: Vec<usize> = (0..36).filter(|i| i / 6 < 4 && i % 6 < 3).collect();
+        let stats = Mutex::new(Stats::default());
+        let k = pick.len();
+        let n = (k * k * k) as u64;
+        ctx.par_run(n, 1, |i, l| {
+            let i = i as usize;
+            let en = Enum { w: &w, alpha_name: "sub", alpha: &sub, profile: &prof, stats: &stats };
+            en.run_tuple(&[pick[i / (k * k)], pick[i / k % k], pick[i % k]], l);
+        });
+        let st = stats.into_inner().unwrap();
+        ctx.set("valid_triple_alphabet", json!(k));
+        ctx.set("valid_triple_files", json!(st.legal));
+        total.lock().unwrap().add(&st);
+    }
+    let tot = total.into_inner().unwrap();
+    ctx.set("profiles", Value::Object(profiles));
+    ctx.set("valid_files_total", json!(tot.legal));
+    ctx.set("valid_files_ok", json!(tot.ok));
+    {
+        let mut m = serde_json::Map::new();
+        for d in 0..NDIMS {
+            for (v, name) in DIMS[d].1.iter().enumerate() {
+                m.insert(format!("{}={}", DIMS[d].0, name), json!(tot.dimvals[d][v]));
+            }
+        }
+        ctx.set("valid_files_per_layout_choice", Value::Object(m));
+    }
+    if tot.ok == 0 {
+        ctx.machinery_failure("vacuous: no valid file was accepted and matched");
+    }
+    ctx.with_local(|l| {
+        for (i, e) in singles.iter().enumerate().step_by(9) {
+            let (v, text) = valid::run_file(&w, &[e], &[0, 0, 0], &[[0; NDIMS]], l);
+            l.sample(json!({"kind": "valid", "record": i, "tag": e.tag, "text": text.map(|t| if t.len() > 200 { format!("{}...", &t[..200]) } else { t }), "verdict": format!("{v:?}").chars().take(120).collect::<String>()}));
+        }
+    });
+
+    // ------------------------------------------------------------------------------ malformed
+    let max_len = if thorough { 6 } else { 5 };
+    let shorts = malformed::short_strings(&ctx, &w, max_len);
+    ctx.set("short_strings", json!(shorts));
+    ctx.set("short_string_max_len", json!(max_len));
+
+    let dir = malformed::scratch_dir();
+    let _ = std::fs::remove_dir_all(&dir);
+    if let Err(e) = std::fs::create_dir_all(&dir) {
+        vcore::machinery_exit(&format!("cannot create scratch dir {dir:?}: {e}"));
+    }
+    std::fs::write(dir.join("inc.zone"), "inc 1 IN A 192.0.2.7\n").expect("scratch write");
+
+    let seeds = malformed::seeds(&w, &singles, &sub);
+    ctx.set("seed_files", json!(seeds.len()));
+    // every seed must itself be accepted (or be a listed finding of the valid direction)
+    let mut seed_ok = 0;
+    ctx.with_local(|l| {
+        let main = dir.join("main.zone");
+        for s in &seeds {
+            let path = if s.text.contains("$INCLUDE") { Some(main.as_path()) } else { None };
+            let c = malformed::run_text(&w, "seed", &s.text, path, true, l);
+            if c == "ok:records" {
+                seed_ok += 1;
+            }
+        }
+        l.sample(json!({"kind": "seed", "what": seeds[0].what, "text": seeds[0].text}));
+        l.sample(json!({"kind": "seed", "what": seeds[seeds.len() - 3].what, "text": seeds[seeds.len() - 3].text}));
+    });
+    ctx.set("seed_files_accepted", json!(seed_ok));
+    if seed_ok * 2 < seeds.len() {
+        ctx.machinery_failure("vacuous: fewer than half of the seed files are accepted by the parser");
+    }
+    let (e1, e2) = malformed::edits(&ctx, &w, &seeds, &dir, if thorough { 8 } else { 0 });
+    ctx.set("single_edits", json!(e1));
+    ctx.set("double_edits", json!(e2));
+
+    let mut points = malformed::growth(&ctx, &w, thorough);
+    points.extend(malformed::includes(&ctx, &w, &dir));
+    let _ = std::fs::remove_dir_all(&dir);
+    if dir.exists() {
+        ctx.machinery_failure("scratch directory could not be removed");
+    }
+
+    // time growth: reported per family; super-linear growth is an observation (the statement
+    // only forbids endless loops, which the watchdog decides)
+    {
+        let mut fam: std::collections::BTreeMap<String, Vec<&malformed::GrowthPoint>> = Default::default();
+        for p in &points {
+            fam.entry(p.family.clone()).or_default().push(p);
+        }
+        let mut table = serde_json::Map::new();
+        let mut superlinear = vec![];
+        for (name, ps) in &fam {
+            let last = ps.last().unwrap();
+            let row: Vec<Value> = ps.iter().filter(|p| p.n.trailing_zeros() % 4 == 0 || p.n == last.n).map(|p| json!({"n": p.n, "bytes": p.len, "us": p.micros as u64, "outcome": p.outcome})).collect();
+            table.insert(name.clone(), json!(row));
+            // compare cost per byte at the largest size with the cost per byte 16x below
+            if let Some(base) = ps.iter().find(|p| p.n * 16 == last.n) {
+                if base.outcome != "panic" && last.outcome != "panic" && last.micros > 200_000 {
+                    let r = (last.micros as f64 / last.len as f64) / (base.micros.max(1) as f64 / base.len as f64);
+                    if r > 8.0 {
+                        superlinear.push(json!({"family": name, "ratio_per_byte_16x": r, "us_at_max": last.micros as u64}));
+                    }
+                }
+            }
+        }
+        ctx.set("growth_times", Value::Object(table));
+        ctx.set("growth_superlinear_observations", json!(superlinear));
+        ctx.set("growth_points", json!(points.len()));
+    }
+    if ctx.outcome_count("short:ok:empty") == 0 || ctx.outcome_count("edit:ok:records") == 0 {
+        ctx.machinery_failure("vacuous: malformed direction never saw an accepted text");
+    }
+    ctx.finish(true);
 }
